@@ -6,11 +6,14 @@ export GOFLAGS=-mod=mod GOPROXY=off GOSUMDB=off GOTOOLCHAIN=local
 wt=$(mktemp -d /tmp/confirm-XXXXXX); rmdir "$wt"
 git -C /repo worktree add --detach "$wt" HEAD >/dev/null 2>&1 || exit 3
 res=""
-( cd "$wt" && git apply "$d/patch.diff" ) || { echo "APPLY-FAILED"; git -C /repo worktree remove --force "$wt"; exit 3; }
+# a patch written against an older HEAD (a hook or fix commit arrived meanwhile) is merged three-way; the diff against the current
+# HEAD is kept as patch.rebased.diff and is what gets imported
+( cd "$wt" && { git apply "$d/patch.diff" 2>/dev/null || git apply -3 "$d/patch.diff"; } ) || { echo "APPLY-FAILED"; git -C /repo worktree remove --force "$wt"; exit 3; }
+( cd "$wt" && git diff HEAD > "$d/patch.rebased.diff" )
 if (cd "$wt/pkg/go" && go build ./... && go test -vet=off -count=1 ./... >/tmp/$$.suite 2>&1); then res="suite=pass"; else res="suite=FAIL"; fi
 cp "$d/demo_test.go" "$wt/pkg/go/$pkg/zz_seed_demo_test.go"
 if (cd "$wt/pkg/go" && go test -vet=off -count=1 -run 'Seed|Demo|C[0-9][0-9](R2)?M' ./$pkg/ >/tmp/$$.demo1 2>&1); then res="$res demo_with_change=PASS(bad)"; else res="$res demo_with_change=fail"; fi
-( cd "$wt" && git apply -R "$d/patch.diff" )
+( cd "$wt" && git checkout -q HEAD -- . && git reset -q )
 if (cd "$wt/pkg/go" && go test -vet=off -count=1 -run 'Seed|Demo|C[0-9][0-9](R2)?M' ./$pkg/ >/tmp/$$.demo2 2>&1); then res="$res demo_clean=pass"; else res="$res demo_clean=FAIL(bad)"; fi
 echo "$d: $res"
 rm -f /tmp/$$.suite /tmp/$$.demo1 /tmp/$$.demo2
